@@ -76,6 +76,7 @@ def instances(tier, seed):
     for entry, spec in SPECS.items():
         if spec[0] == 'fields':
             out.append({'entry': entry, 'mode': 'presence'})
+            out.append({'entry': entry, 'mode': 'fieldlong'})
             for k in spec[1]:
                 out.append({'entry': entry, 'mode': 'field', 'key': k})
         else:
@@ -111,7 +112,7 @@ def instances(tier, seed):
 def bounds(tier):
     return {'quick': 'every predefined command with a structured reply. Field-oriented replies (status, stats, count, replay gain, addid, update, albumart): every field in turn with symbolic presence '
                      '(absent / once / twice) and a symbolic value kind (decimal number of ANY magnitude < 2^72, decimal text of ANY non-negative finite f64, NaN/inf/negative/empty spellings, '
-                     'every enum spelling, 1-2 free ASCII bytes) while the other fields hold valid values, plus every subset of present fields for <= 4 keys. Order-sensitive replies (songs, count group, list, '
+                     'every enum spelling, 1-2 free ASCII bytes) while the other fields hold valid values, plus every subset of present fields for <= 4 keys, plus every field in turn with a ~260-byte value that has a two-byte character at byte offset 255..257; decimal float texts are at most 40 bytes long. Order-sensitive replies (songs, count group, list, '
                      'listplaylists, tagtypes, stickers, channels, messages): every key sequence of length <= 2..3 over the command\'s field names plus a foreign name (1-2 symbolic bytes of [A-Za-z_-]), '
                      'value kind symbolic at one seed-chosen position, then every accessor/iterator of the result is driven to the end. Typed lists (Vec, tuples) of 1..3 commands given 0..4 frames.',
             'thorough': 'as quick with key sequences of length <= 3..5 and the symbolic value kind at every position'}[tier]
@@ -223,6 +224,14 @@ def run_instance(payload):
                              'song': b'1', 'songid': b'2', 'nextsong': b'2', 'nextsongid': b'3', 'elapsed': b'1.5', 'duration': b'200.25', 'Time': b'1:200', 'bitrate': b'320',
                              'xfade': b'2', 'update_job': b'1', 'error': b'e', 'partition': b'default'}
                     fields = [(list(k.encode()), list(valid.get(k, b'1'))) for k in ks]
+        elif mode == 'fieldlong':
+            # one field (symbolic choice) carries a long value: 255/256/257 ASCII bytes, a two-byte character, three more bytes - invalid for
+            # every typed field, plain text for the others; whatever the conversion does with it (error values, logs) must not panic
+            klist = list(keys)
+            k = klist[I.ctx.choose(len(klist), 'longkey')]
+            pad = 255 + I.ctx.choose(3, 'pad')
+            fields = [(list(a.encode()), list(b)) for a, b in extra if a != k]
+            fields.append((list(k.encode()), list(b'x' * pad + '\u00e9'.encode() + b'yyy')))
         elif mode == 'field':
             k = payload['key']
             fields = [(list(a.encode()), list(b)) for a, b in extra if a != k]
